@@ -645,3 +645,339 @@ Qed.
 
 Lemma wrap_rows_nil : wrap_rows [] = [LBRACK; LBRACK; RBRACK; RBRACK].
 Proof. reflexivity. Qed.
+
+(* ------------------------------------------------------------------ the reference reader reads every printing back *)
+Lemma blank_char c : is_blank c = true ->
+  (c =? LBRACK) = false /\ (c =? RBRACK) = false /\ (c =? COMMA) = false /\ tok_char c = false.
+Proof.
+  unfold is_blank, tok_char, SP, NL, TAB, LBRACK, RBRACK, COMMA. intros H.
+  destruct (c =? 32) eqn:E1; [zb; subst; repeat split; reflexivity|].
+  destruct (c =? 10) eqn:E2; [zb; subst; repeat split; reflexivity|].
+  destruct (c =? 9) eqn:E3; [zb; subst; repeat split; reflexivity|]. discriminate.
+Qed.
+
+Lemma tok_char_true c : tok_char c = true ->
+  (c =? LBRACK) = false /\ (c =? RBRACK) = false /\ (c =? COMMA) = false /\ is_blank c = false.
+Proof.
+  unfold tok_char. intros H.
+  destruct (c =? COMMA), (c =? LBRACK), (c =? RBRACK), (is_blank c); simpl in H; try discriminate; repeat split; reflexivity.
+Qed.
+
+Lemma tokenize_blank w s : blank w -> tokenize (w ++ s) [] = tokenize s [].
+Proof.
+  intros F. induction F as [|c w Hc F IH]; [reflexivity|].
+  destruct (blank_char c Hc) as (E1 & E2 & E3 & _).
+  cbn [app tokenize]. rewrite E1, E2, E3, Hc. cbn [flush]. exact IH.
+Qed.
+
+Lemma tokenize_tok v : Forall (fun c => tok_char c = true) v -> forall s cur,
+  tokenize (v ++ s) cur = tokenize s (rev v ++ cur).
+Proof.
+  intros F. induction F as [|c v Hc F IH]; intros s cur; [reflexivity|].
+  destruct (tok_char_true c Hc) as (E1 & E2 & E3 & E4).
+  cbn [app tokenize]. rewrite E1, E2, E3, E4. rewrite IH. cbn [rev]. rewrite <- app_assoc. reflexivity.
+Qed.
+
+Lemma tokenize_flush c X cur : tok_char c = false -> tokenize (c :: X) cur = flush cur (tokenize (c :: X) []).
+Proof.
+  intros H. cbn [tokenize].
+  destruct (c =? LBRACK) eqn:E1; [reflexivity|]. destruct (c =? RBRACK) eqn:E2; [reflexivity|].
+  destruct (c =? COMMA) eqn:E3; [reflexivity|]. destruct (is_blank c) eqn:E4; [reflexivity|].
+  unfold tok_char in H. rewrite E1, E2, E3, E4 in H. discriminate.
+Qed.
+
+Lemma tokenize_atom v c X : Forall (fun c => tok_char c = true) v -> v <> [] -> tok_char c = false ->
+  tokenize (v ++ c :: X) [] = TA v :: tokenize (c :: X) [].
+Proof.
+  intros F Hne Hc. rewrite tokenize_tok by exact F. rewrite tokenize_flush by exact Hc.
+  rewrite app_nil_r. unfold flush. destruct (rev v) eqn:E.
+  - exfalso. apply Hne. rewrite <- (rev_involutive v), E. reflexivity.
+  - rewrite <- E, rev_involutive. reflexivity.
+Qed.
+
+Lemma print_nat_tok n : Forall (fun c => tok_char c = true) (print_nat n).
+Proof. pose proof (print_nat_digits n) as D. revert D. apply Forall_impl. intros c H. apply digit_chars in H. tauto. Qed.
+
+Definition row_toks (t : triple) : list token :=
+  [TL; TA (print_nat (fst (fst t))); TC; TA (print_nat (snd (fst t))); TC; TA (snd t); TR].
+
+Lemma tokenize_row w t rest : ws_ok w -> tok_ok (snd t) ->
+  tokenize (print_row w t ++ rest) [] = row_toks t ++ tokenize rest [].
+Proof.
+  intros (B1 & B2 & B3 & B4 & B5 & B6) [Hne Tv]. destruct t as [[r c] v]. cbn [fst snd] in *.
+  unfold print_row, row_toks. cbn [fst snd]. repeat (rewrite <- app_assoc; cbn [app]).
+  change (tokenize (LBRACK :: ?X) []) with (TL :: tokenize X []).
+  cbn [tokenize]. change (LBRACK =? LBRACK) with true. cbn [flush].
+  rewrite (tokenize_blank _ _ B2).
+  rewrite (tokenize_atom (print_nat r) COMMA) by (first [apply print_nat_tok|apply print_nat_nonempty|reflexivity]).
+  cbn [tokenize]. change (COMMA =? LBRACK) with false. change (COMMA =? RBRACK) with false. change (COMMA =? COMMA) with true.
+  cbn [flush]. rewrite (tokenize_blank _ _ B3).
+  rewrite (tokenize_atom (print_nat c) COMMA) by (first [apply print_nat_tok|apply print_nat_nonempty|reflexivity]).
+  cbn [tokenize]. change (COMMA =? LBRACK) with false. change (COMMA =? RBRACK) with false. change (COMMA =? COMMA) with true.
+  cbn [flush]. rewrite (tokenize_blank _ _ B3).
+  assert (tokenize (v ++ w_row_close w ++ RBRACK :: rest) [] = TA v :: TR :: tokenize rest []) as E.
+  { destruct (w_row_close w) as [|b wc] eqn:Ew.
+    - cbn [app]. rewrite (tokenize_atom v RBRACK) by (first [exact Tv|exact Hne|reflexivity]).
+      cbn [tokenize]. change (RBRACK =? LBRACK) with false. change (RBRACK =? RBRACK) with true. reflexivity.
+    - inversion B4 as [|? ? Hb Hwc]; subst. cbn [app].
+      rewrite (tokenize_atom v b) by (first [exact Tv|exact Hne|apply blank_char; exact Hb]).
+      change (b :: wc ++ RBRACK :: rest) with ((b :: wc) ++ RBRACK :: rest).
+      rewrite (tokenize_blank (b :: wc)) by (constructor; assumption).
+      cbn [tokenize]. change (RBRACK =? LBRACK) with false. change (RBRACK =? RBRACK) with true. reflexivity. }
+  rewrite E. reflexivity.
+Qed.
+
+Fixpoint toks_rows (l : list triple) : list token :=
+  match l with
+  | [] => []
+  | [t] => row_toks t
+  | t :: r => row_toks t ++ TC :: toks_rows r
+  end.
+
+Lemma tokenize_rows w : ws_ok w -> forall l rest, l <> [] -> triples_ok l ->
+  tokenize (print_rows w l ++ rest) [] = toks_rows l ++ tokenize rest [].
+Proof.
+  intros W. pose proof W as (B1 & B2 & B3 & B4 & B5 & B6).
+  induction l as [|t r IH]; intros rest Hne T; [congruence|].
+  inversion T as [|? ? Tt Tr]; subst. destruct r as [|t2 r].
+  - cbn [print_rows toks_rows]. apply tokenize_row; assumption.
+  - change (print_rows w (t :: t2 :: r)) with (print_row w t ++ [COMMA] ++ w_rows w ++ print_rows w (t2 :: r)).
+    change (toks_rows (t :: t2 :: r)) with (row_toks t ++ TC :: toks_rows (t2 :: r)).
+    repeat (rewrite <- app_assoc; cbn [app]).
+    rewrite (tokenize_row w t _ W Tt).
+    cbn [tokenize]. change (COMMA =? LBRACK) with false. change (COMMA =? RBRACK) with false. change (COMMA =? COMMA) with true.
+    cbn [flush]. rewrite (tokenize_blank _ _ B5). rewrite IH by (first [discriminate|exact Tr]).
+    repeat (rewrite <- app_assoc; cbn [app]). reflexivity.
+Qed.
+
+Definition not_comma_headed (ts : list token) : Prop := match ts with TC :: _ => False | _ => True end.
+
+Lemma parse_rows_ok : forall l fuel rest, l <> [] -> (length l <= fuel)%nat -> not_comma_headed rest ->
+  parse_rows fuel (toks_rows l ++ rest) = Some (l, rest).
+Proof.
+  induction l as [|t r IH]; intros fuel rest Hne Hf Hr; [congruence|].
+  destruct fuel as [|f]; [simpl in Hf; lia|]. destruct t as [[a b] v].
+  destruct r as [|t2 r].
+  - cbn [toks_rows row_toks fst snd app parse_rows]. rewrite !parse_print_nat.
+    destruct rest as [|tk rest']; [reflexivity|]. destruct tk; try reflexivity. contradiction.
+  - change (toks_rows ((a, b, v) :: t2 :: r)) with (row_toks (a, b, v) ++ TC :: toks_rows (t2 :: r)).
+    rewrite <- app_assoc. cbn [row_toks fst snd app parse_rows]. rewrite !parse_print_nat.
+    rewrite (IH f rest) by (first [discriminate|simpl in Hf; simpl; lia|exact Hr]). reflexivity.
+Qed.
+
+Lemma toks_rows_length l : (length l <= length (toks_rows l))%nat.
+Proof.
+  induction l as [|t r IH]; [simpl; lia|]. destruct r as [|t2 r]; [simpl; lia|].
+  change (toks_rows (t :: t2 :: r)) with (row_toks t ++ TC :: toks_rows (t2 :: r)).
+  rewrite app_length. cbn [length] in *. lia.
+Qed.
+
+Lemma tokenize_print_ws w l : ws_ok w -> triples_ok l -> l <> [] ->
+  tokenize (print_ws w l) [] = TL :: toks_rows l ++ [TR].
+Proof.
+  intros W T Hne. pose proof W as (B1 & B2 & B3 & B4 & B5 & B6).
+  unfold print_ws, print_inner. destruct l as [|t r] eqn:El; [congruence|]. rewrite <- El in *.
+  cbn [app]. cbn [tokenize]. change (LBRACK =? LBRACK) with true. cbn [flush].
+  repeat rewrite <- app_assoc. rewrite (tokenize_blank _ _ B1).
+  rewrite (tokenize_rows w W l _ Hne T). rewrite (tokenize_blank _ _ B6).
+  cbn [tokenize]. change (RBRACK =? LBRACK) with false. change (RBRACK =? RBRACK) with true. reflexivity.
+Qed.
+
+Lemma parse_print_ws w l : ws_ok w -> triples_ok l -> parse_triples (print_ws w l) = Some l.
+Proof.
+  intros W T. destruct l as [|t r] eqn:El; [reflexivity|]. rewrite <- El in *.
+  assert (Hne : l <> []) by (rewrite El; discriminate).
+  unfold parse_triples. rewrite (tokenize_print_ws w l W T Hne).
+  assert (exists tk rest, toks_rows l = TL :: tk :: rest) as (tk & rest & Et).
+  { rewrite El. destruct r; [eexists; eexists; reflexivity|].
+    change (toks_rows (t :: t0 :: r)) with (row_toks t ++ TC :: toks_rows (t0 :: r)). eexists; eexists; reflexivity. }
+  rewrite Et. cbn [app]. change (TL :: tk :: rest ++ [TR]) with ((TL :: tk :: rest) ++ [TR]).
+  rewrite <- Et. clear Et tk rest.
+  rewrite (parse_rows_ok l _ [TR] Hne); [reflexivity| |exact Logic.I].
+  rewrite app_length. pose proof (toks_rows_length l). lia.
+Qed.
+
+(* ------------------------------------------------------------------ the slicing theorems *)
+Lemma subset_obs_ok keep l : triples_ok l -> triples_ok (subset_obs keep l).
+Proof.
+  unfold triples_ok, subset_obs. intros F. apply Forall_forall. intros t Ht.
+  apply in_map_iff in Ht. destruct Ht as [[[r c] v] [E Hin]]. subst t. apply filter_In in Hin.
+  rewrite Forall_forall in F. exact (F _ (proj1 Hin)).
+Qed.
+Lemma subset_samp_ok keep l : triples_ok l -> triples_ok (subset_samp keep l).
+Proof.
+  unfold triples_ok, subset_samp. intros F. apply Forall_forall. intros t Ht.
+  apply in_map_iff in Ht. destruct Ht as [[[r c] v] [E Hin]]. subst t. apply filter_In in Hin.
+  rewrite Forall_forall in F. exact (F _ (proj1 Hin)).
+Qed.
+
+Lemma ws_compact_ok : ws_ok ws_compact.
+Proof. repeat split; constructor. Qed.
+Lemma ws_default_ok : ws_ok ws_default.
+Proof. repeat split; repeat constructor. Qed.
+Lemma ws_indent2_ok : ws_ok ws_indent2.
+Proof. repeat split; repeat constructor. Qed.
+
+Theorem slice_obs_ws_proof w l keep : ws_ok w -> triples_ok l -> subset_obs keep l <> [] ->
+  exists out, slice_obs (print_inner w l) keep = ROk out /\ parse_triples out = Some (subset_obs keep l).
+Proof.
+  intros W T Hs. assert (l <> []) as Hne by (intros E; subst; apply Hs; reflexivity).
+  exists (wrap_rows (map crow (subset_obs keep l))). split; [apply slice_obs_text; assumption|].
+  rewrite wrap_rows_compact by exact Hs. apply parse_print_ws; [apply ws_compact_ok|apply subset_obs_ok; exact T].
+Qed.
+
+Theorem slice_samp_ws_proof w l keep : ws_ok w -> triples_ok l -> subset_samp keep l <> [] ->
+  exists out, slice_samp (print_inner w l) keep = ROk out /\ parse_triples out = Some (subset_samp keep l).
+Proof.
+  intros W T Hs. assert (l <> []) as Hne by (intros E; subst; apply Hs; reflexivity).
+  exists (wrap_rows (map crow (subset_samp keep l))). split; [apply slice_samp_text; assumption|].
+  rewrite wrap_rows_compact by exact Hs. apply parse_print_ws; [apply ws_compact_ok|apply subset_samp_ok; exact T].
+Qed.
+
+(* the result does not depend on the whitespace of the input *)
+Theorem slice_ws_indep_proof w1 w2 l keep : ws_ok w1 -> ws_ok w2 -> triples_ok l -> l <> [] ->
+  slice_obs (print_inner w1 l) keep = slice_obs (print_inner w2 l) keep /\
+  slice_samp (print_inner w1 l) keep = slice_samp (print_inner w2 l) keep.
+Proof.
+  intros W1 W2 T Hne. split.
+  - rewrite !slice_obs_text by assumption. reflexivity.
+  - rewrite !slice_samp_text by assumption. reflexivity.
+Qed.
+
+Definition T_EMPTY_ROWS : text := [LBRACK; LBRACK; RBRACK; RBRACK].      (* the text [[]] *)
+
+(* no stored entry survives: the slicers emit [[]], which is not an entry list *)
+Theorem slice_none_kept_proof w l keep : ws_ok w -> triples_ok l -> l <> [] ->
+  (subset_obs keep l = [] -> slice_obs (print_inner w l) keep = ROk T_EMPTY_ROWS) /\
+  (subset_samp keep l = [] -> slice_samp (print_inner w l) keep = ROk T_EMPTY_ROWS) /\
+  parse_triples T_EMPTY_ROWS = None.
+Proof.
+  intros W T Hne. split; [|split].
+  - intros E. rewrite slice_obs_text by assumption. rewrite E. reflexivity.
+  - intros E. rewrite slice_samp_text by assumption. rewrite E. reflexivity.
+  - reflexivity.
+Qed.
+
+(* an all-zero table: "data": [] has nothing between the brackets, whatever the whitespace *)
+Theorem slice_zero_table_proof w keep :
+  print_inner w [] = [] /\ slice_obs [] keep = RErr E_VALUE /\ slice_samp [] keep = RErr E_VALUE.
+Proof. repeat split. Qed.
+
+(* ------------------------------------------------------------------ direct_parse_key on header pairs *)
+Lemma scan_str_plain c rest n : c <> QUOTE -> c <> BSL -> scan_str (c :: rest) n = scan_str rest (S n).
+Proof.
+  intros H1 H2. cbn [scan_str]. apply Z.eqb_neq in H1. apply Z.eqb_neq in H2. rewrite H1, H2. reflexivity.
+Qed.
+Lemma scan_str_esc x rest n : scan_str (BSL :: x :: rest) n = scan_str rest (S (S n)).
+Proof. reflexivity. Qed.
+
+Lemma hexd_plain k : 0 <= k < 16 -> hexd k <> QUOTE /\ hexd k <> BSL.
+Proof. intros H. unfold hexd, QUOTE, BSL. destruct (k <? 10) eqn:E; zb; lia. Qed.
+
+Lemma scan_str_u c rest n : 0 <= c -> scan_str (u_escape c ++ rest) n = scan_str rest (n + 6)%nat.
+Proof.
+  intros Hc. unfold u_escape. cbn [app]. rewrite scan_str_esc.
+  assert (forall x, 0 <= x mod 16 < 16) as M by (intros x; apply Z.mod_pos_bound; lia).
+  rewrite !scan_str_plain by (apply hexd_plain; apply M). f_equal. lia.
+Qed.
+
+Lemma scan_str_esc_char c rest n : 0 <= c -> scan_str (esc_char c ++ rest) n = scan_str rest (n + length (esc_char c))%nat.
+Proof.
+  intros Hc. unfold esc_char.
+  repeat match goal with
+  | |- context [if ?b then _ else _] => let E := fresh "E" in destruct b eqn:E
+  end;
+  try (cbn [app length]; rewrite scan_str_esc; f_equal; lia).
+  - zb. cbn [app length]. rewrite scan_str_plain by (unfold QUOTE, BSL in *; lia). f_equal. lia.
+  - rewrite scan_str_u by exact Hc. reflexivity.
+  - rewrite <- app_assoc, app_length.
+    assert (0 <= (c - 65536) / 1024) by (zb; apply Z.div_pos; lia).
+    assert (0 <= ((c - 65536) / 1024) mod 1024) by (apply Z.mod_pos_bound; lia).
+    assert (0 <= (c - 65536) mod 1024) by (apply Z.mod_pos_bound; lia).
+    rewrite !scan_str_u by lia. f_equal. cbn [u_escape length]. lia.
+Qed.
+
+Definition code_points (s : text) : Prop := Forall (fun c => 0 <= c) s.
+
+Lemma scan_str_escape s rest n : code_points s ->
+  scan_str (json_escape s ++ QUOTE :: rest) n = Some (S (n + length (json_escape s)))%nat.
+Proof.
+  intros F. revert n. induction F as [|c s Hc F IH]; intros n.
+  - cbn [json_escape flat_map app length scan_str]. rewrite Z.eqb_refl. f_equal. lia.
+  - cbn [json_escape flat_map]. rewrite <- app_assoc, scan_str_esc_char by exact Hc.
+    fold (json_escape s). rewrite IH, app_length. f_equal. lia.
+Qed.
+
+Lemma skip_space_app w x rest n :
+  Forall (fun c => is_space c = true) w -> is_space x = false ->
+  skip_space (w ++ x :: rest) n = Some ((n + length w)%nat, x :: rest).
+Proof.
+  intros F Hx. revert n. induction F as [|c w Hc F IH]; intros n.
+  - cbn [app skip_space length]. rewrite Hx. f_equal. f_equal. lia.
+  - cbn [app skip_space length]. rewrite Hc, IH. f_equal. f_equal. lia.
+Qed.
+
+Lemma scan_num_lit t x rest n :
+  Forall (fun c => ((c =? COMMA) || (c =? LBRACE) || (c =? RBRACE)) = false) t ->
+  ((x =? COMMA) || (x =? LBRACE) || (x =? RBRACE)) = true ->
+  scan_num (t ++ x :: rest) n = Some (n + length t)%nat.
+Proof.
+  intros F Hx. revert n. induction F as [|c t Hc F IH]; intros n.
+  - cbn [app scan_num length]. rewrite Hx. f_equal. lia.
+  - cbn [app scan_num length]. rewrite Hc, IH. f_equal. lia.
+Qed.
+
+Lemma key_pat_length key : length (key_pat key) = (length key + 3)%nat.
+Proof. unfold key_pat. cbn [length]. rewrite app_length. simpl. lia. Qed.
+
+Lemma firstn_app_exact {A} (a b : list A) n : n = length a -> firstn n (a ++ b) = a.
+Proof. intros ->. rewrite firstn_app, Nat.sub_diag, firstn_all. simpl. apply app_nil_r. Qed.
+
+Lemma skipn_app_exact {A} (a b : list A) n : n = length a -> skipn n (a ++ b) = b.
+Proof. intros ->. rewrite skipn_app, Nat.sub_diag, skipn_all. reflexivity. Qed.
+
+Definition post_ok (v : hvalue) (post : text) : Prop :=
+  match v with
+  | HStr _ => True
+  | HLit _ => match post with c :: _ => ((c =? COMMA) || (c =? LBRACE) || (c =? RBRACE)) = true | [] => False end
+  end.
+Definition hvalue_ok (v : hvalue) : Prop :=
+  match v with HStr s => code_points s | HLit t => lit_ok t end.
+
+Theorem parse_key_ok_proof pre key w v post :
+  no_occ_before (key_pat key) (pre ++ print_pair key w v ++ post) (length pre) ->
+  Forall (fun c => is_space c = true) w -> hvalue_ok v -> post_ok v post ->
+  direct_parse_key (pre ++ print_pair key w v ++ post) key = ROk (print_pair key w v).
+Proof.
+  intros Hocc Fw Hv Hp. unfold direct_parse_key, print_pair in *.
+  rewrite <- !app_assoc in *. rewrite (find_sub_app _ _ _ Hocc).
+  rewrite (skipn_app_exact pre _ _ eq_refl).
+  rewrite (skipn_app_exact (key_pat key) _ _ (eq_sym (key_pat_length key))).
+  destruct v as [s|t]; cbn [print_hvalue hvalue_ok post_ok] in *.
+  - unfold print_jstring. cbn [app]. rewrite skip_space_app by (assumption || reflexivity).
+    change (QUOTE =? QUOTE) with true. cbv iota.
+    rewrite <- app_assoc. cbn [app]. rewrite scan_str_escape by exact Hv. cbn [option_map].
+    f_equal.
+    replace (key_pat key ++ w ++ QUOTE :: json_escape s ++ QUOTE :: post)
+      with ((key_pat key ++ w ++ QUOTE :: json_escape s ++ [QUOTE]) ++ post)
+      by (repeat (rewrite <- app_assoc; cbn [app]); reflexivity).
+    apply firstn_app_exact. rewrite !app_length, key_pat_length. cbn [length]. rewrite app_length. simpl. lia.
+  - destruct Hv as [Hne Ft]. destruct t as [|c t']; [congruence|].
+    destruct post as [|x post']; [contradiction|].
+    inversion Ft as [|? ? Hc Ft']; subst.
+    assert (is_space c = false /\ (c =? QUOTE) = false /\ is_open c = false) as (C1 & C2 & C3).
+    { repeat match type of Hc with (_ || _) = false => apply orb_false_iff in Hc; destruct Hc as [Hc ?] end.
+      repeat split; assumption. }
+    cbn [app]. rewrite skip_space_app by assumption.
+    rewrite C2, C3. cbn [negb].
+    change (c :: t' ++ x :: post') with ((c :: t') ++ x :: post').
+    rewrite (scan_num_lit (c :: t') x post' 0 ) ; [| |exact Hp].
+    + f_equal.
+      replace (key_pat key ++ w ++ (c :: t') ++ x :: post') with ((key_pat key ++ w ++ c :: t') ++ x :: post')
+        by (repeat (rewrite <- app_assoc; cbn [app]); reflexivity).
+      apply firstn_app_exact. rewrite !app_length, key_pat_length. cbn [length]. lia.
+    + revert Ft. apply Forall_impl. intros a Ha.
+      repeat match type of Ha with (_ || _) = false => apply orb_false_iff in Ha; destruct Ha as [Ha ?] end.
+      rewrite Ha. match goal with H : (a =? LBRACE) = false |- _ => rewrite H end.
+      match goal with H : (a =? RBRACE) = false |- _ => rewrite H end. reflexivity.
+Qed.
